@@ -163,7 +163,13 @@ fn run_case(case: &Value) -> Value {
                 }
             }
         }
-        if take < n + 2 && !stuck {
+        if stuck {
+            // the caller gives up (time-out / select!) and drops the stream whose last poll was pending:
+            // nothing was read, what is held must stay as it was
+            drop(stream);
+            let v: Vec<String> = held.iter().map(|s| hex(s.as_bytes())).collect();
+            after_stuck["views_after_drop"] = json!(v);
+        } else if take < n + 2 {
             // the unfinished stream is dropped while earlier items are still held
             drop(stream);
             let views: Vec<String> = held.iter().map(|s| hex(s.as_bytes())).collect();
